@@ -157,3 +157,31 @@ def check_hash_object(rep, prog, rid, construct, text, S, where, scenario=None):
     if ok:
         rep.ok(rid, construct, 'hash object via identity table HashAlgorithm.%s' % m.group(1), scenario=scenario)
     return ok
+
+
+def check_cipher_tables(rep, prog, rid):
+    """Symmetric cipher ids and key sizes against the RFC 4880 9.2 / RFC 5581 table (independent oracle)."""
+    from . import tables
+    ci = prog.cls('pgpy.constants', 'SymmetricKeyAlgorithm')
+    mem = ci.enum_members()
+    want_ids = {'Plaintext': 0, 'IDEA': 1, 'TripleDES': 2, 'CAST5': 3, 'Blowfish': 4, 'AES128': 7, 'AES192': 8, 'AES256': 9,
+                'Twofish256': 10, 'Camellia128': 11, 'Camellia192': 12, 'Camellia256': 13}
+    bad = {k: (mem.get(k), v) for k, v in want_ids.items() if mem.get(k) != v}
+    rep.check(not bad, rid, 'SymmetricKeyAlgorithm', 'ids %s' % bad, 'cipher ids must be the RFC 4880 9.2 / RFC 5581 values', where=ci.where,
+              found=bad)
+    ks = tables.table(ci.methods['key_size'].node)
+    want_ks = {'IDEA': 128, 'TripleDES': 192, 'CAST5': 128, 'Blowfish': 128, 'AES128': 128, 'AES192': 192, 'AES256': 256,
+               'Twofish256': 256, 'Camellia128': 128, 'Camellia192': 192, 'Camellia256': 256}
+    got = {k.split('.')[-1]: int(v) for k, v in ks.items()}
+    rep.check(got == want_ks, rid, 'SymmetricKeyAlgorithm.key_size', 'key sizes %s' % {k: v for k, v in got.items() if want_ks.get(k) != v},
+              'cipher key sizes must be the RFC values (a generated session key has this many bits)',
+              where=ci.methods['key_size'].where, expected=want_ks, found=got)
+    # the cipher class each id is bound to
+    cf = ci.methods.get('cipher')
+    ct = tables.table(cf.node)
+    want_c = {'IDEA': 'algorithms.IDEA', 'TripleDES': 'algorithms.TripleDES', 'CAST5': 'algorithms.CAST5', 'Blowfish': 'algorithms.Blowfish',
+              'AES128': 'algorithms.AES', 'AES192': 'algorithms.AES', 'AES256': 'algorithms.AES', 'Camellia128': 'algorithms.Camellia',
+              'Camellia192': 'algorithms.Camellia', 'Camellia256': 'algorithms.Camellia'}
+    gotc = {k.split('.')[-1]: v for k, v in ct.items() if k.split('.')[-1] in want_c}
+    rep.check(gotc == want_c, rid, 'SymmetricKeyAlgorithm.cipher', 'cipher classes', 'each cipher id must be bound to its own block cipher',
+              where=cf.where, expected=want_c, found=gotc)
